@@ -321,12 +321,18 @@ def validate_property_class(val, name, class_, parent):
         current = getattr(parent, f"_{name}", None)
         if isinstance(current, class_):
             # a dictionary updates the existing properties, like `update` does: properties
-            # that it does not mention keep their values (`None` resets all of them)
-            val = current.update(val)
+            # that it does not mention keep their values (`None` resets all of them).
+            # The update is done on a copy: a rejected dictionary leaves nothing half applied
+            # and an object that was assigned to several parents is not written through
+            val = current.copy().update(val)
         else:
             val = class_(**val)
     elif val is None:
         val = class_()
+    elif isinstance(val, class_):
+        # the values of the given object are taken over, not the object itself: the
+        # properties of different parents (and the library defaults) stay independent
+        val = val.copy()
     if not isinstance(val, class_):
         raise ValueError(
             f"the `{name}` property of `{type(parent).__name__}` must be an instance \n"
